@@ -36,16 +36,18 @@ PRESET_SCHEMES = [gen.PRESETS[k] for k in ("unifying", "pseudodistance", "induce
 def check(case, ctx):
     if "scheme" in case:
         return check_one(case, ctx)
+    # ONE CopelandMethod instance and ONE Dataset object serve the whole batch (state kept between runs must not leak)
+    shared = {"alg": CopelandMethod(), "d": lib.mk_dataset(case["dataset"]["rankings"])}
     for scheme in case["schemes"] + PRESET_SCHEMES:
-        check_one({"scheme": scheme, "dataset": case["dataset"], "flag": case["flag"]}, ctx)
+        check_one({"scheme": scheme, "dataset": case["dataset"], "flag": case["flag"]}, ctx, shared)
 
 
-def check_one(case, ctx):
+def check_one(case, ctx, shared=None):
     rankings, scheme = case["dataset"]["rankings"], case["scheme"]
-    d, s = lib.mk_dataset(rankings), lib.mk_scheme(scheme)
+    d, s = (shared["d"] if shared else lib.mk_dataset(rankings)), lib.mk_scheme(scheme)
     inst = oracle.Instance(rankings, scheme)
     univ, n = inst.elements, inst.n
-    val = lib.must(CopelandMethod().compute_consensus_rankings, d, s, case["flag"])
+    val = lib.must((shared["alg"] if shared else CopelandMethod()).compute_consensus_rankings, d, s, case["flag"])
     model = well_formed(val, rankings, case["flag"], "Copeland")[0]
     res = {}
     equal_pair = never_coranked = False
